@@ -84,8 +84,9 @@ def main():
         if keep:
             os.makedirs(keep, exist_ok=True)
             for f in ("patch.diff", "demo.py", "NOTES.md"):
-                if os.path.exists(os.path.join(src, f)):
-                    shutil.copy(os.path.join(src, f), os.path.join(keep, f))
+                a, b = os.path.join(src, f), os.path.join(keep, f)
+                if os.path.exists(a) and os.path.abspath(a) != os.path.abspath(b):
+                    shutil.copy(a, b)
             with open(os.path.join(keep, "meta.json"), "w") as f:
                 json.dump(meta, f, indent=1)
     finally:
